@@ -13,6 +13,7 @@ Proof.
   - intros f. split; [intros [H | []]; left; congruence | intros [H | H]; [left; congruence | discriminate]].
   - intros fl [H | []] _. subst fl. auto.
   - intros fl [H | []] E. subst fl. simpl in E. contradiction.
+  - intros fl [H | []] E. subst fl. simpl in E. contradiction.
   - intros fl [H | []]. subst fl. simpl. split; [constructor; [intros [] | constructor] |].
     intros m. simpl. destruct (mid_eqb m (MUser 0)); discriminate.
   - intros fl m [H | []]. subst fl. unfold tbl_of, A_init. simpl. destruct (mid_eqb m (MUser 0)); reflexivity.
@@ -36,8 +37,8 @@ Proof. exists A_init. exact inv_init. Qed.
 Lemma inv_step : forall st ss x, Inv st ss -> form_ok (ss_decls ss) x = true ->
   snd (step fixed st x) = Ok /\ Inv (fst (step fixed st x)) (sstep ss x).
 Proof.
-  intros st ss x [A I] H. destruct x as [f vars comps keys gets sets | f d m id cont].
-  - destruct (step_flavor st ss A f vars comps keys gets sets I H) as (A' & H1 & H2). split; [exact H1 | exists A'; exact H2].
+  intros st ss x [A I] H. destruct x as [f vars comps keys gets sets io | f d m id cont].
+  - destruct (step_flavor st ss A f vars comps keys gets sets io I H) as (A' & H1 & H2). split; [exact H1 | exists A'; exact H2].
   - simpl in H. apply andb_true_iff in H. destruct H as [Hf Hd]. apply negb_true_iff in Hf. apply Nat.eqb_neq in Hf.
     destruct (step_method st ss A f d m (BUser id cont) I Hf Hd) as (A' & H1 & H2). split; [exact H1 | exists A'; exact H2].
 Qed.
@@ -75,7 +76,7 @@ Proof. induction cs as [| c cs IH]; intros e; [reflexivity | apply IH]. Qed.
 Theorem inadmissible_refused : forall st ss x, Inv st ss -> names_vanilla x = false -> form_ok (ss_decls ss) x = false ->
   step fixed st x = (st, s_outcome (ss_decls ss) x) /\ s_outcome (ss_decls ss) x <> Ok.
 Proof.
-  intros st ss x [A I] Hv H. destruct x as [f vars comps keys gets sets | f d m id cont]; simpl in *.
+  intros st ss x [A I] Hv H. destruct x as [f vars comps keys gets sets io | f d m id cont]; simpl in *.
   - apply orb_false_iff in Hv. destruct Hv as [Hfv Hcv]. rewrite Hfv in *. simpl in *.
     unfold def_flavor. destruct (defined (ss_decls ss) f) eqn:E.
     + assert (He : existsb (fun fl => f_name fl =? f) (st_flavors st) = true).
@@ -94,7 +95,8 @@ Proof.
         rewrite Hcn. reflexivity. }
       rewrite Hsame, H. split; [| discriminate].
       destruct (forallb_false_split _ _ H) as (pre & c & post & Hcomps & Hpre & Hc).
-      set (nf0 := {| f_name := f; f_inherit := []; f_vars := set_all Nat.eqb [] vars; f_keys := []; f_meths := []; f_prec := [] |}).
+      set (nf0 := {| f_name := f; f_inherit := []; f_vars := set_all Nat.eqb [] vars; f_keys := []; f_meths := []; f_prec := [];
+                   f_initable := []; f_required := [] |}).
       change (fold_left _ comps (inr nf0)) with (fold_left (comp_step st) comps (inr nf0)).
       assert (W := i_wfd _ _ _ I).
       assert (HI : forall g, defined (ss_decls ss) g = true -> exists c0, find_flavor st g = Some c0 /\ f_inherit c0 = tl (prec (ss_decls ss) g) ++ [vanilla]).
@@ -154,7 +156,7 @@ Lemma nvb_fold : forall (mk : nat -> mid) (bd : nat -> body) f vs ss, no_vanilla
 Proof. induction vs as [| x vs IH]; intros ss H Hb; simpl; [exact H |]. apply IH; [apply nvb_set; [exact H | apply Hb] | exact Hb]. Qed.
 Lemma nvb_step : forall ss x, no_vanilla_body ss -> no_vanilla_body (sstep ss x).
 Proof.
-  intros ss [f vars comps keys gets sets | f d m id cont] H; simpl.
+  intros ss [f vars comps keys gets sets io | f d m id cont] H; simpl.
   - apply nvb_fold; [apply nvb_fold; [| discriminate] | discriminate]. intros g m c Hs. apply (H g m c Hs).
   - apply nvb_set; [exact H | discriminate].
 Qed.
@@ -289,4 +291,55 @@ Proof.
   intros st f m arg. unfold send. destruct (find_flavor st f) as [fl |]; [| discriminate].
   destruct (lookup mid_eqb m (f_meths fl)) as [tbl |]; [| discriminate].
   apply send_never_out_of_fuel. apply inner_call_fuel.
+Qed.
+
+(* ---- make-instance with init arguments ------------------------------------------------------------------------------- *)
+Lemma initable_of_ext : forall l l' k, (forall x, In x l <-> In x l') -> initable_of l k = initable_of l' k.
+Proof.
+  intros l l' k H. assert (Hm : existsb (Nat.eqb k) l = existsb (Nat.eqb k) l').
+  { change (mem k l = mem k l'). destruct (mem k l) eqn:E.
+    - apply mem_In in E. symmetry. apply mem_In. apply H. exact E.
+    - apply mem_false in E. symmetry. apply mem_false. intros E'. apply E. apply H. exact E'. }
+  unfold initable_of. destruct l as [| a l], l' as [| a' l']; try reflexivity.
+  - exfalso. apply (proj2 (H a') (or_introl eq_refl)).
+  - exfalso. apply (proj1 (H a) (or_introl eq_refl)).
+  - exact Hm.
+Qed.
+Lemma init_loop_ext : forall v1 k1 v2 k2 args u p, (forall x, v1 x = v2 x) -> (forall x, k1 x = k2 x) ->
+  init_loop v1 k1 args u p = init_loop v2 k2 args u p.
+Proof.
+  intros v1 k1 v2 k2. induction args as [| [k z] r IH]; intros u p Hv Hk; simpl; [reflexivity |].
+  rewrite Hv, Hk. destruct (v2 k); [apply IH; assumption |]. destruct (k2 k); [apply IH; assumption | reflexivity].
+Qed.
+Lemma init_gen_ext : forall v1 k1 v2 k2 req args, (forall x, v1 x = v2 x) -> (forall x, k1 x = k2 x) ->
+  init_gen v1 k1 req args = init_gen v2 k2 req args.
+Proof. intros. unfold init_gen. rewrite (init_loop_ext v1 k1 v2 k2 args [] []); [reflexivity | assumption | assumption]. Qed.
+
+Lemma obs_make : forall st ss A f args, InvA st ss A -> defined (ss_decls ss) f = true ->
+  make_instance st f args = s_make_code (ss_decls ss) f args.
+Proof.
+  intros st ss A f args I Hd. destruct (obs_record st ss A I f Hd) as (fl & H1 & H2 & H3 & H4). unfold make_instance. rewrite H1.
+  assert (Hfl : f_name fl <> vanilla) by congruence.
+  destruct (i_io _ _ _ I fl H2 Hfl) as [Q1 Q2]. rewrite H3 in Q1, Q2. rewrite Q2. unfold s_make_code. apply init_gen_ext.
+  - intros x. rewrite (initable_of_ext _ _ x Q1), (obs_vars st ss A I f Hd fl x H1). reflexivity.
+  - intros x. rewrite (obs_keys st ss A I f Hd fl x H1). reflexivity.
+Qed.
+Theorem make_instance_code_rule : forall h f args, wf h = true -> defined (decls h) f = true ->
+  make_instance (final h) f args = s_make_code (decls h) f args.
+Proof. intros h f args H Hd. destruct (history_inv h H) as [_ [A I]]. apply (obs_make _ _ A f args I Hd). Qed.
+Lemma init_res_eqb_eq : forall a b, init_res_eqb a b = true -> a = b.
+Proof.
+  assert (L : forall l r : list (nat * Z),
+            (fix leq (l r : list (nat * Z)) := match l, r with [], [] => true
+               | x :: l', y :: r' => ((fst x =? fst y) && Z.eqb (snd x) (snd y)) && leq l' r' | _, _ => false end) l r = true -> l = r).
+  { induction l as [| [k z] l IH]; intros [| [k' z'] r] H; try discriminate; [reflexivity |].
+    simpl in H. apply andb_true_iff in H. destruct H as [H1 H2]. apply andb_true_iff in H1. destruct H1 as [E1 E2].
+    apply Nat.eqb_eq in E1. apply Z.eqb_eq in E2. subst. f_equal. apply IH. exact H2. }
+  intros [[u p] |] [[u' p'] |] H; simpl in H; try discriminate; [| reflexivity].
+  apply andb_true_iff in H. destruct H as [H1 H2]. rewrite (L _ _ H1), (L _ _ H2). reflexivity.
+Qed.
+Theorem make_instance_by_precedence : forall h f args, wf h = true -> defined (decls h) f = true -> g_init (decls h) f args = true ->
+  make_instance (final h) f args = s_make (decls h) f args.
+Proof.
+  intros h f args H Hd G. rewrite (make_instance_code_rule h f args H Hd). apply init_res_eqb_eq. exact G.
 Qed.
